@@ -105,12 +105,33 @@ def rawInitStd (p : Lzma.Props) (fs : List FilterOpts) : Ret :=
 def stdEncEnv (p : Lzma.Props) (parser : Parser) : EncEnv :=
   { encPayload := fun fs x => (rawEncode p parser fs x).getD [], rawInit := rawInitStd p, check := stdCheck }
 
-/-! ## two parsers for examples and drivers -/
+/-! ## two parsers that keep their contract on every input (Lemmas/E2EParsers.lean, Props/C01EndToEndAll.lean) -/
 
 /-- The all-literals parser: one `literal` record per byte that `encode_init` has not already coded (the first byte of a
-    stream without preset dictionary), `mf->read_ahead = 0`.  Accepted by the chunker for short inputs (one LZMA chunk). -/
+    stream without preset dictionary); `pos` is the encoder's 32-bit view of `uncomp_size`; `mf->read_ahead = 0`. -/
 def literalParser : Parser := fun _ _ buf =>
   ((List.range (buf.size - 1)).map fun i =>
-    ({ kind := 0, back := 4294967295, len := 1, pos := i + 1, ra := 0 } : TraceRec)).toArray
+    ({ kind := 0, back := 4294967295, len := 1, pos := (i + 1) % 4294967296, ra := 0 } : TraceRec)).toArray
+
+/-- how many of the bytes at `i`, `i+1`, … (at most `cap`) repeat their predecessor -/
+def runLen (buf : ByteArray) : Nat → Nat → Nat
+  | 0, _ => 0
+  | cap + 1, i => if (decide (i < buf.size) && buf.get! i == buf.get! (i - 1)) = true then runLen buf cap (i + 1) + 1 else 0
+
+/-- records of the run parser from data offset `o` on (`fuel` bounds the number of records) -/
+def runRecs (buf : ByteArray) : Nat → Nat → List TraceRec
+  | 0, _ => []
+  | fuel + 1, o =>
+    if o ≥ buf.size then []
+    else
+      let n := runLen buf 273 o
+      if n ≥ 2 then
+        ({ kind := 0, back := 4, len := n, pos := o % 4294967296, ra := 0 } : TraceRec) :: runRecs buf fuel (o + n)
+      else
+        ({ kind := 0, back := 4294967295, len := 1, pos := o % 4294967296, ra := 0 } : TraceRec) :: runRecs buf fuel (o + 1)
+
+/-- A parser that emits real matches: wherever at least two bytes repeat the byte before them it codes the run (up to 273
+    bytes) as ONE normal match at distance 1 (`back = 0 + REPS`), everything else as literals. -/
+def runParser : Parser := fun _ _ buf => (runRecs buf buf.size 1).toArray
 
 end XzVerif.XzEncEnv
